@@ -18,7 +18,8 @@ META = {
              "mapping to it. distinct = hash(case); non-trivial = a removal that empties some ballots and merges two others."),
     "assumptions": ["cleaning functions merge only adjacent equal rankings: compared as multisets, not lists"],
     "min_obs": {"all": {"remove_cand_calls": 2000, "single_ballot_calls": 300, "emptied_and_merged": 100,
-                        "expand_calls": 300, "cleaning_calls": 1000, "add_missing_calls": 300}},
+                        "expand_calls": 300, "cleaning_calls": 1000, "add_missing_calls": 300, "noncands_tied_calls": 200,
+                        "expand_ballots_with_3plus_tied_positions": 30}},
 }
 
 
@@ -268,6 +269,45 @@ def check_expand(ctx, case):
     repeatable(ctx, case, "resolve_profile_ties", lambda: U.resolve_profile_ties(prof), res, [prof], before)
 
 
+def check_noncands_tied(ctx, case):
+    """remove_noncands on ballots WITH tied positions: a non-candidate is deleted wherever it stands, also inside a tie; the
+    other members of the position stay together; positions left empty disappear (collapsing repeated positions is optional)."""
+    import votekit.cleaning as C
+
+    spec, nc = case["profile"], list(case["noncands"])
+    prof = canon.build_profile(spec)
+    ctx.case(case, nontrivial=any(len(g) > 1 and set(g) & set(nc) and set(g) - set(nc) for b in spec["ballots"] for g in b["r"]))
+    before = psn(prof)
+    o = observe(C.remove_noncands, prof, nc)
+    ctx.count("cleaning_calls")
+    ctx.count("noncands_tied_calls")
+    if not o.ok:
+        ctx.fail(f"remove_noncands raised {o.etype} on ballots with tied positions", case, {"msg": str(o.exc)[:200]})
+        return
+    if psn(prof) != before or nc != list(case["noncands"]):
+        ctx.fail("remove_noncands changed its input", case, {})
+        return
+    ea, eb = {}, {}
+    for b in prof.ballots:
+        filt = [frozenset(s) - set(nc) for s in b.ranking]
+        filt = [s for s in filt if s]
+        seen = []
+        for s in filt:
+            if s not in seen:
+                seen.append(s)
+        if filt:
+            ea[tuple(filt)] = ea.get(tuple(filt), F(0)) + b.weight
+            eb[tuple(seen)] = eb.get(tuple(seen), F(0)) + b.weight
+    if any(c in nc for b in o.value.ballots for s in b.ranking for c in s):
+        ctx.fail("remove_noncands: a removed name still appears (inside a tied position)", case,
+                 {"result": [canon.groups(b.ranking) for b in o.value.ballots][:6]})
+        return
+    got = ms(o.value.ballots)
+    if got != ea and got != eb:
+        ctx.fail("remove_noncands on tied ballots: result is not the per-position filtered multiset", case,
+                 {"result": [[canon.groups(b.ranking), str(b.weight)] for b in o.value.ballots][:6]})
+
+
 def check_cleaning(ctx, case):
     import votekit.cleaning as C
     from votekit import Ballot, PreferenceProfile
@@ -432,6 +472,14 @@ def run(ctx):
                 # a ballot with two tied positions goes first (its half-resolved forms are expanded right after it)
                 q = rnd.sample(sp2["cands"], 4)
                 sp2["ballots"].insert(0, canon.spec_ballot(r=[q[:2], q[2:]], w=gen.weight(rnd, "rat")))
+            if rnd.random() < 0.3:
+                # three and four tied positions on one ballot (every earlier expansion shifts the later positions)
+                pool = (list(sp2["cands"]) + ["t1", "t2", "t3", "t4", "t5", "t6", "t7"])[:max(6, len(sp2["cands"]))]
+                q = rnd.sample(pool, rnd.choice([6, 6, 7]) if len(pool) >= 7 else 6)
+                groups = [q[0:2], q[2:4], q[4:6]] if len(q) == 6 else rnd.choice([[q[0:2], q[2:3], q[3:5], q[5:7]], [q[0:3], q[3:5], q[5:7]]])
+                sp2 = {"cands": list(dict.fromkeys(list(sp2["cands"]) + q)), "ballots": list(sp2["ballots"])}
+                sp2["ballots"].insert(rnd.randrange(len(sp2["ballots"]) + 1), canon.spec_ballot(r=groups, w=gen.weight(rnd, "rat")))
+                ctx.count("expand_ballots_with_3plus_tied_positions")
             ctx.guard("expand", check_expand, ctx, {"kind": "expand", "profile": sp2})
         cs2 = gen.cands(rnd, rnd.randint(1, 5))
         bl = [([rnd.choice(cs2) for _ in range(rnd.randint(1, 5))], canon.fs(gen.weight(rnd, "mixed"))) for _ in range(rnd.randint(1, 6))]
@@ -439,9 +487,15 @@ def run(ctx):
             bl.insert(rnd.randrange(len(bl) + 1), (list(bl[0][0]), "2"))
         ctx.guard("cleaning", check_cleaning, ctx, {"kind": "cleaning", "cands": cs2, "ballots": bl,
                                                     "noncands": rnd.sample(cs2 + ["writein"], rnd.randint(0, len(cs2)))})
+        if i % 3 == 0:
+            tp = gen.ranked(rnd, n=rnd.randint(2, 6), ties=True, maxb=6)
+            ctx.guard("noncands_tied", check_noncands_tied, ctx,
+                      {"kind": "noncands_tied", "profile": tp,
+                       "noncands": rnd.sample(tp["cands"] + ["writein"], rnd.randint(1, max(1, len(tp["cands"]) - 1)))})
 
 
 def replay(ctx, case):
     if case["kind"] == "realistic":
         return check_realistic(ctx)
-    {"remove": check_remove, "add_missing": check_add_missing, "expand": check_expand, "cleaning": check_cleaning}[case["kind"]](ctx, case)
+    {"remove": check_remove, "add_missing": check_add_missing, "expand": check_expand, "cleaning": check_cleaning,
+     "noncands_tied": check_noncands_tied}[case["kind"]](ctx, case)
